@@ -549,7 +549,7 @@ Proof. reflexivity. Qed.
 Lemma client_view_trailers c e live pre b : v_trailers (client_view c e live pre b) = final_trailers b.
 Proof. reflexivity. Qed.
 
-(* ---------- one attempt of the retry loop (header map was copied: placeholders read the client's headers) ---------- *)
+(* ---------- one attempt of the retry loop (placeholders read a header map [h0] the rules do not touch) ---------- *)
 Definition auth_hdr (t : target) (h : hdr) : hdr :=
   match t_auth t with
   | Some a => if is_nil (hget h K_AUTHZ) then hset h K_AUTHZ a else h
@@ -557,7 +557,7 @@ Definition auth_hdr (t : target) (h : hdr) : hdr :=
   end.
 
 Lemma attempt_spec c e h0 st t :
-  let o := snd (attempt c e h0 true st t) in
+  let o := snd (attempt c e (Some h0) st t) in
   (forall k, hlookup (o_hdr o) k =
              fold_left vop_apply (vops_for (subst_of e h0) (c_up c) k ++ revops_for (subst_of e h0) (c_upre c) k)
                        (hlookup (auth_hdr t (s_hdr st)) k)) /\
@@ -570,6 +570,53 @@ Proof.
   - apply (director_path t (c_without c) (s_url st)).
   - apply (director_query t (c_without c) (s_url st)).
   - reflexivity.
+Qed.
+
+(* ---------- retries: every attempt starts from the request createUpstreamRequest produced ---------- *)
+Lemma attempts_fresh c e fixed st0 ts : forall st i t,
+  nth_error ts i = Some t ->
+  nth_error (fst (attempts c e fixed true st0 st ts)) i = Some (snd (attempt c e fixed st0 t)).
+Proof.
+  induction ts as [|t0 ts IH]; intros st i t H; [destruct i; discriminate|].
+  cbn [attempts]. destruct (attempt c e fixed st0 t0) as [st' o] eqn:Ea.
+  destruct (attempts c e fixed true st0 st' ts) as [os stf] eqn:Er. cbn [fst].
+  destruct i as [|i]; cbn [nth_error] in *.
+  - injection H as <-. rewrite Ea. reflexivity.
+  - specialize (IH st' i t H). rewrite Er in IH. exact IH.
+Qed.
+
+Lemma attempts_length c e fixed retriable st0 ts : forall st,
+  length (fst (attempts c e fixed retriable st0 st ts)) = length ts.
+Proof.
+  induction ts as [|t0 ts IH]; intros st; [reflexivity|]. cbn [attempts].
+  destruct (attempt c e fixed (if retriable then st0 else st) t0) as [st' o].
+  specialize (IH st'). destruct (attempts c e fixed retriable st0 st' ts) as [os stf]. cbn [fst length] in *. rewrite IH. reflexivity.
+Qed.
+
+(* what the placeholders read when retries are possible: never the map being rewritten *)
+Definition live_retriable (q : request) : hdr :=
+  if req_copied (q_hdr q) then q_hdr q else s_hdr (init_state q).
+Lemma fixed_of_retriable q : fixed_of true q = Some (live_retriable q).
+Proof. unfold fixed_of, live_retriable. destruct (req_copied (q_hdr q)); reflexivity. Qed.
+
+(* EVERY attempt (first or retry) to target t: path/query per the director applied ONCE to the client's
+   URL, headers = (stripped headers + that upstream's credentials) transformed ONCE by the rules *)
+Lemma retry_every_attempt_spec c q ts i t :
+  nth_error ts i = Some t ->
+  exists o, nth_error (fst (run_request c true q ts)) i = Some o /\
+    u_path (o_url o) = spec_path t (c_without c) (u_path (q_url q)) /\
+    u_query (o_url o) = spec_query t (u_query (q_url q)) /\
+    o_urlhost o = t_host t /\
+    (forall k, hlookup (o_hdr o) k =
+               fold_left vop_apply (vops_for (subst_of (env_of q) (live_retriable q)) (c_up c) k ++
+                                    revops_for (subst_of (env_of q) (live_retriable q)) (c_upre c) k)
+                         (hlookup (auth_hdr t (create_upstream_headers (q_remote q) (q_hdr q))) k)).
+Proof.
+  intros H. unfold run_request. rewrite fixed_of_retriable.
+  exists (snd (attempt c (env_of q) (Some (live_retriable q)) (init_state q) t)).
+  split; [apply attempts_fresh; exact H|].
+  pose proof (attempt_spec c (env_of q) (live_retriable q) (init_state q) t) as S. simpl in S.
+  destruct S as [S1 [S2 [S3 S4]]]. split; [exact S2|]. split; [exact S3|]. split; [exact S4|exact S1].
 Qed.
 
 (* ---------- the hop-by-hop table covers the RFC list ---------- *)
@@ -614,15 +661,12 @@ Definition wit_q : request :=
      q_url := {| u_path := bs "/x"%string; u_rawpath := []; u_query := bs "a=b"%string |}; q_hdr := [(K_XFF, [bs "1.1.1.1"%string])] |}.
 Definition wit_c : pcfg := parse_cfg [DUp (bs "+X-A"%string) (bs "lit"%string)].
 
-(* retry: the second attempt is rewritten again (path, query and +rules applied twice) *)
-Lemma retry_rewrite_refuted :
-  exists c q t o1 o2, fst (run_request c q [t; t]) = [o1; o2] /\
-    u_path (o_url o1) = spec_path t (c_without c) (u_path (q_url q)) /\
-    u_path (o_url o2) = bs "/base/base/x"%string /\ u_query (o_url o2) = bs "tq=1&tq=1&a=b"%string /\
-    hlookup (o_hdr o1) (bs "X-A"%string) = Some [bs "lit"%string] /\
-    hlookup (o_hdr o2) (bs "X-A"%string) = Some [bs "lit"%string; bs "lit"%string].
+(* the witness of the former finding F-C04-4 (retry): the second attempt is NOT rewritten again *)
+Lemma retry_rewrite_once :
+  exists o1 o2, fst (run_request wit_c true wit_q [wit_t; wit_t]) = [o1; o2] /\
+    u_path (o_url o2) = bs "/base/x"%string /\ u_query (o_url o2) = bs "tq=1&a=b"%string /\
+    hlookup (o_hdr o2) (bs "X-A"%string) = Some [bs "lit"%string] /\ o2 = o1.
 Proof.
-  exists wit_c, wit_q, wit_t.
   eexists. eexists. split; [vm_compute; reflexivity|].
   repeat split; vm_compute; reflexivity.
 Qed.
@@ -632,7 +676,7 @@ Qed.
 Lemma placeholder_alias_refuted :
   exists c q q' t o o',
     q_hdr q' = q_hdr q ++ [(K_CONNECTION, [bs "keep-alive"%string])] /\
-    fst (run_request c q [t]) = [o] /\ fst (run_request c q' [t]) = [o'] /\
+    fst (run_request c false q [t]) = [o] /\ fst (run_request c false q' [t]) = [o'] /\
     hlookup (o_hdr o) (bs "X-New"%string) = Some [bs "1.1.1.1, 192.0.2.7"%string] /\
     hlookup (o_hdr o') (bs "X-New"%string) = Some [bs "1.1.1.1"%string].
 Proof.
